@@ -22,6 +22,10 @@ fn via_for(ty: usize, rng: &mut Rng) -> Via {
     }
 }
 
+fn cs_only(a: &Spec) -> String {
+    Case::new("fmt").with("a", a.enc()).with("only", "dec").enc()
+}
+
 fn judge_fmt<A: Subject + AllPairs>(ctx: &mut Ctx, case: &Case, wl: &str) {
     let a = case.spec("a");
     let (av, _) = build::<A>(&a);
@@ -45,6 +49,21 @@ fn judge_fmt<A: Subject + AllPairs>(ctx: &mut Ctx, case: &Case, wl: &str) {
     let cs = || Case::new("fmt").with("a", a.enc()).enc();
     ctx.sample(wl, cs);
     // the matrix is spread over the cases: each case formats one fifth of it (plus the five plain specs)
+    if case.opt("only") == Some("dec") {
+        // long vectors: just `{}` and `{:+#030}` (the conversion is quadratic)
+        ctx.bucket("fmt:long-decimal");
+        let big = model::val(&a.bits);
+        let want = (format!("{}", big), format!("{:+#030}", big));
+        match guarded(|| (format!("{}", av), format!("{:+#030}", av))) {
+            Ok(got) => {
+                if got != want {
+                    ctx.violation("format-differs-from-integer", &format!("{}|dec-long", sig), &cs_only(&a), format!("format!(\"{{}}\", {} ones) has {} characters ; the integer has {} : {:?} vs {:?}", n, got.0.len(), want.0.len(), &got.0[..got.0.len().min(24)], &want.0[..24.min(want.0.len())]));
+                }
+            }
+            Err(p) => ctx.violation("format-panicked", &sig, &cs_only(&a), p.short()),
+        }
+        return;
+    }
     let of = if ctx.replaying { 1 } else { 5 };
     let sel = (h % of as u64) as usize;
     let oracle = model::fmt_full_oracle(&a.bits, sel, of);
@@ -268,6 +287,31 @@ fn run_c14(ctx: &mut Ctx) {
                 }
             }
         }
+        // long vectors: the power-of-two radixes up to 4097 bits; decimal (quadratic) up to 777 bits
+        if TYPE_FIXED_CAP[ty].is_none() && ctx.mine() {
+            for n in gen::long_lens(tier) {
+                if n > 800 && tier != Tier::Thorough {
+                    continue;
+                }
+                if n > 2100 {
+                    continue;
+                }
+                for va in gen::lattice_small(n, 64, &mut rng) {
+                    judge(ctx, &Case::new("fmt").with("a", Spec::new(ty, va, via_for(ty, &mut rng)).enc()), "W-long-vectors");
+                }
+            }
+        }
+        // decimal of long values whose top bits are all set / that sit just above a power of ten, at many different
+        // lengths (a digit-count estimate that is one short only fails for particular bit counts and large mantissas)
+        if TYPE_FIXED_CAP[ty].is_none() {
+            let lens: Vec<usize> = if tier == Tier::Thorough { (600..=2100).collect() } else { (0..tier.pick(6, 150, 0)).map(|_| 600 + rng.below(1500)).collect() };
+            for n in lens {
+                if !ctx.mine() {
+                    continue;
+                }
+                judge(ctx, &Case::new("fmt").with("a", Spec::new(ty, vec![true; n], Via::Set).enc()).with("only", "dec"), "W-long-decimal");
+            }
+        }
         // decimal near powers of ten
         if ctx.mine() {
             let mut p = BigUint::from(1u8);
@@ -284,7 +328,7 @@ fn run_c14(ctx: &mut Ctx) {
             }
         }
     }
-    let per = tier.pick(100, 150_000, 800_000) / ctx.nworkers + 1;
+    let per = tier.pick(100, 60_000, 600_000) / ctx.nworkers + 1;
     let mut rng = Rng::derive(ctx.seed, 0x1415, ctx.worker as u64);
     for _ in 0..per {
         let ty = rng.below(NTYPES);
@@ -378,6 +422,98 @@ fn run_c15(ctx: &mut Ctx) {
                             chars[p2] = OFFENDERS[rng.below(OFFENDERS.len())].to_string();
                             if !(hex && chars[p2].chars().all(|c| c.is_ascii_hexdigit())) {
                                 emit_parse(ctx, ty, &chars.concat(), hex, "W4-two-offenders");
+                            }
+                        }
+                    }
+                }
+            }
+        }
+        // long strings (dynamic and auto types): digit counts around multiples of 64 bits / 16 nibbles up to 4097 bits
+        if cap.is_none() && ctx.mine() {
+            for n in gen::long_lens(tier) {
+                for rep in 0..tier.pick(1, 3, 8) {
+                    let bits = match rep {
+                        0 => vec![true; n],
+                        1 => {
+                            let mut b = vec![false; n];
+                            b[0] = true;
+                            b
+                        }
+                        _ => gen::random_bits(n, &mut rng),
+                    };
+                    let s: String = bits.iter().rev().map(|b| if *b { '1' } else { '0' }).collect();
+                    emit_parse(ctx, ty, &s, false, "W-long-strings");
+                    let nd = n / 4 + rep % 2;
+                    let hs: String = (0..nd).map(|_| *rng.pick(&HEXD)).collect();
+                    emit_parse(ctx, ty, &hs, true, "W-long-strings");
+                    // one offending character deep inside
+                    let pos = (n * 2 / 3).min(s.len() - 1);
+                    let mut bad: Vec<char> = s.chars().collect();
+                    bad[pos] = *rng.pick(&['2', 'x', ' ', '\u{e9}', '+']);
+                    emit_parse(ctx, ty, &bad.into_iter().collect::<String>(), false, "W-long-strings");
+                    if nd > 2 {
+                        let mut badh: Vec<char> = hs.chars().collect();
+                        let hp = nd * 2 / 3;
+                        badh[hp] = *rng.pick(&['g', 'G', '_', '\u{ff11}', '+']);
+                        emit_parse(ctx, ty, &badh.into_iter().collect::<String>(), true, "W-long-strings");
+                    }
+                    judge(ctx, &Case::new("parsefmt").with("a", Spec::new(ty, bits, via_for(ty, &mut rng)).enc()), "W-long-strings");
+                }
+            }
+        }
+        // structured base strings (zero padding of whole storage words, all-zero, all-one, alternating) with one
+        // offending character in each region: an index computed relative to a stripped or chunked string shows here
+        if ctx.mine() {
+            for hex in [false, true] {
+                let unit = if hex { 16 } else { 64 };
+                let maxd = cap.map_or(unit * 4 + 9, |c| if hex { c / 4 } else { c });
+                for pad in [0usize, 1, unit - 1, unit, unit + 1, 2 * unit, 2 * unit + 3] {
+                    for tail in [1usize, 2, unit - 1, unit, unit + 2] {
+                        let nd = pad + tail;
+                        if nd > maxd || nd == 0 {
+                            continue;
+                        }
+                        for base in 0..4 {
+                            let digit = |i: usize, rng: &mut Rng| -> char {
+                                if i < pad {
+                                    return '0';
+                                }
+                                match base {
+                                    0 => '0',
+                                    1 => {
+                                        if hex {
+                                            'f'
+                                        } else {
+                                            '1'
+                                        }
+                                    }
+                                    2 => {
+                                        if i % 2 == 0 {
+                                            '1'
+                                        } else {
+                                            '0'
+                                        }
+                                    }
+                                    _ => {
+                                        if hex {
+                                            *rng.pick(&HEXD)
+                                        } else if rng.bool() {
+                                            '1'
+                                        } else {
+                                            '0'
+                                        }
+                                    }
+                                }
+                            };
+                            let chars: Vec<char> = (0..nd).map(|i| digit(i, &mut rng)).collect();
+                            emit_parse(ctx, ty, &chars.iter().collect::<String>(), hex, "W-structured-strings");
+                            for pos in [0usize, pad.saturating_sub(1), pad, pad + tail / 2, nd - 1] {
+                                if pos >= nd {
+                                    continue;
+                                }
+                                let mut c2 = chars.clone();
+                                c2[pos] = *rng.pick(&['x', 'z', ' ', '_', '\u{e9}', '+', '-', 'G']);
+                                emit_parse(ctx, ty, &c2.iter().collect::<String>(), hex, "W-structured-strings");
                             }
                         }
                     }
